@@ -447,7 +447,7 @@ Section FillFinal.
     assert (FU0 : FU key xc yc values img r0 0 g1').
     { split; [|split].
       - unfold GU, g1'; simpl. unfold lenZ; rewrite fill_length.
-        split; [lia|]. split; [apply Forall_fill; left; reflexivity|]. auto.
+        split; [unfold w, lenZ in *; lia|]. split; [apply Forall_fill; left; reflexivity|]. auto.
       - intros r1 Hr1. unfold filled, g1'; simpl. apply Hfilled1; lia.
       - intros; lia. }
     assert (FUh : FU key xc yc values img r0 (h - 0)
